@@ -17,7 +17,7 @@ type GBOpt struct {
 	ContigOnly  bool // allow CONTIG-only records
 }
 
-var gbWords = []string{"SOURCE", "TITLE", "ORIGIN", "REFERENCE", "FEATURES", "Escherichia", "coli", "phage", "protein", "synthetic", "construct", "plasmid", "vector", "complete", "genome", "strain", "K-12", "hypothetical", "DNA", "sequence", "of", "the", "and", "region", "alpha", "beta", "3'", "(partial)", "cds,", "isolate:", "x=1", "a/b", "[v2]"}
+var gbWords = []string{"SOURCE", "TITLE", "ORIGIN", "REFERENCE", "FEATURES", "Escherichia", "coli", "phage", "protein", "synthetic", "construct", "plasmid", "vector", "complete", "genome", "strain", "K-12", "hypothetical", "DNA", "sequence", "of", "the", "and", "region", "alpha", "beta", "3'", "(partial)", "cds,", "isolate:", "x=1", "a/b", "[v2]", "50%", "sp.", "100%d"}
 
 func words(r *rand.Rand, n int) string {
 	ss := make([]string, n)
@@ -177,11 +177,18 @@ func RandGenBank(r *rand.Rand, o GBOpt, labelPrefix string) seqio.GenBank {
 	for i, n := 0, r.Intn(9); i < n; i++ {
 		f.Keywords = append(f.Keywords, words(r, 1+r.Intn(3)))
 	}
+	if len(f.Keywords) > 0 && r.Intn(4) == 0 {
+		// an entry that ends in a period of its own, in the last place too.
+		f.Keywords[len(f.Keywords)-1] = "unclassified Bacillus sp."
+	}
 	if r.Intn(5) != 0 {
 		f.Source.Species = words(r, 1+r.Intn(5))
 		f.Source.Name = words(r, 1+r.Intn(4))
 		for i, n := 0, r.Intn(12); i < n; i++ {
 			f.Source.Taxon = append(f.Source.Taxon, gbWords[r.Intn(len(gbWords))])
+		}
+		if len(f.Source.Taxon) > 0 && r.Intn(4) == 0 {
+			f.Source.Taxon[len(f.Source.Taxon)-1] = "Bacillus spp."
 		}
 	}
 	for i, n := 0, r.Intn(4); i < n; i++ {
